@@ -166,12 +166,25 @@ pub fn check(c: &Case) -> Result<(), String> {
                 }
                 TOp::Xof(n) => {
                     let mut r = ExtendableOutput::finalize_xof(t.clone());
-                    // two reads: the reader keeps its position
+                    // several reads: the reader keeps its position. The piece sizes follow one of eight patterns chosen
+                    // by n (thirds; hash-sized; block-sized; pieces that start or end on block boundaries)
                     let n = *n as usize;
                     let mut o = vec![0u8; n];
-                    let (a, b) = o.split_at_mut(n / 3);
-                    XofReader::read(&mut r, a);
-                    XofReader::read(&mut r, b);
+                    let pats: [&[usize]; 8] = [&[0], &[32], &[64, 32], &[1, 63, 32], &[16], &[33, 31], &[64], &[128, 32, 7]];
+                    let pat = pats[n % 8];
+                    if pat == [0] {
+                        let (a, b) = o.split_at_mut(n / 3);
+                        XofReader::read(&mut r, a);
+                        XofReader::read(&mut r, b);
+                    } else {
+                        let (mut at, mut k) = (0usize, 0usize);
+                        while at < n {
+                            let len = core::cmp::min(pat[k % pat.len()], n - at);
+                            XofReader::read(&mut r, &mut o[at..at + len]);
+                            at += len;
+                            k += 1;
+                        }
+                    }
                     eq_bytes(&what, &o, &xof_want(n))?;
                 }
                 TOp::XofInto(n) => {
@@ -339,7 +352,7 @@ pub fn classify(c: &Case) -> Classes {
 
 fn op_strategy(max_abs: u32) -> BoxedStrategy<TOp> {
     let sz = || hist::size(max_abs);
-    let n = || prop_oneof![1 => Just(0u16), 3 => 1u16..=200, 1 => 0u16..=1500];
+    let n = || prop_oneof![1 => Just(0u16), 3 => 1u16..=200, 1 => 0u16..=1500, 3 => crate::gen::select(vec![1u16, 16, 31, 32, 33, 63, 64, 65, 96, 128, 192, 256])];
     prop_oneof![
         4 => sz().prop_map(TOp::Update),
         1 => sz().prop_map(TOp::Chain),
